@@ -31,6 +31,13 @@ redundant cross-check):
   blocks (`BlockOk`): such entries are the same entry.  It is what `Sys.loadFile` produces (proved in
   `blocksOk_of_load`), it is evaluated per run with the rest of `BlocksOk` (`tables_ok`), and without it
   `des_no_fewer` is false (`exClash` below).
+* **Repair F17b** (model `Sys.rcSuffix`): when one port is bound to one signal both plainly and starred, both
+  connectors are written and the one of the complementary binding is called `<signal>-<instance>-<port>-_rc`
+  (`connectors_written_once_keys`).  The structure names of a signal block are then pairwise distinct unless a third
+  entry's own connector name is `<instance>-<port>-_rc` (`connectors_written_once`: exact condition;
+  `connectors_written_once_of_no_rc`; `exRcClash` below shows it is needed).  On loaded trees no suffix is ever
+  written (`LoadInv.rcSuffix_loaded`), and the `BlocksOk`-relative theorems keep their statements: uniqueness of the
+  structure names is the hypothesis `BlocksOk.structNames`, and a connector is looked up under its new name.
 * **M1, `BlocksOk (blocksInst inst)` — discharged** (`blocksOk_of_load`, from `PepperProofs/LoadInvDes.lean`): it
   holds for whatever `Sys.loadFile` returns, for bundles satisfying `DesNamesOk`: component sources with user
   names in their statements (`StmtNamesOk`, the statement part of C01's `UserNamesOk`) and pairwise distinct
@@ -148,34 +155,68 @@ theorem connector_is_gadget (inst : Inst) (ok : BlocksOk (blocksInst inst)) (pfx
       (es.map (fun e => (portNucs pfx len e, e.wc))) :=
   gadget_of_block ok hb a
 
-/-- **A connector is written once (repair F17).**  `System.output_nupack` keeps a `done` set: of the entries of one
-    signal that share connector name (`<instance>-<port>`) and orientation (`wc`) only the first is written.  For every
-    signal block, unconditionally: the connector lines of `signalDoc pfx sg len es` are those of a sub-list `kept` of
-    the entry table (same order) whose (connector name, orientation) pairs are pairwise distinct and which
-    represents every entry. -/
+/-- **A connector is written once (repair F17), the complementary one of a port bound both ways as `…-_rc` (repair
+    F17b).**  `System.output_nupack` keeps a `done` set: of the entries of one signal that share connector name
+    (`<instance>-<port>`) and orientation (`wc`) only the first is written.  For every signal block, unconditionally:
+    the connector lines of `signalDoc pfx sg len es` are those of a sub-list `kept` of the entry table (same order)
+    whose (connector name, orientation) pairs are pairwise distinct and which represents every entry; the connector
+    of a kept entry `e` is called `<signal>-<instance>-<port>` followed by `Sys.rcSuffix es e`, which is `-_rc` if
+    `e` is a complementary binding and some entry of the (full) table binds the same port plainly, and empty
+    otherwise (`rcSuffix_spec`). -/
 theorem connectors_written_once_keys (pfx sg : String) (len : Nat) (es : List SigEntry) :
     ∃ kept : List SigEntry, kept.Sublist es ∧
       (kept.map (fun e => (e.connName, e.wc))).Nodup ∧
       (∀ e ∈ es, ∃ e' ∈ kept, e'.connName = e.connName ∧ e'.wc = e.wc) ∧
       structLines (signalDoc pfx sg len es) =
-        (pfx ++ sg ++ "-_Self", duplex len) :: kept.map (fun e => (pfx ++ sg ++ "-" ++ e.connName, duplex len)) ∧
+        (pfx ++ sg ++ "-_Self", duplex len) ::
+        kept.map (fun e => (pfx ++ sg ++ "-" ++ e.connName ++ rcSuffix es e, duplex len)) ∧
       assignLines (signalDoc pfx sg len es) =
         (pfx ++ sg ++ "-_Self", [⟨wcName pfx sg, false⟩, ⟨pfx ++ sg, false⟩]) ::
-        kept.map (fun e => (pfx ++ sg ++ "-" ++ e.connName,
+        kept.map (fun e => (pfx ++ sg ++ "-" ++ e.connName ++ rcSuffix es e,
           (⟨if e.wc then pfx ++ sg else wcName pfx sg, false⟩ : Item) :: (portItems pfx e).2)) :=
   ⟨dedupEntries es, dedupEntries_sublist es, dedupEntries_keys_nodup es, fun _ he => dedupEntries_cover he,
     by simp only [structLines_signalDoc, portItems_fst_connName],
     by simp only [assignLines_signalDoc, portItems_fst_connName]⟩
 
-/-- For every signal block, the structure names of `signalDoc pfx sg len es` (`S-_Self` and the connectors
-    `S-<instance>-<port>`) are pairwise distinct **iff** no two entries of the signal share a connector name with
-    different orientation.  The side condition is exact: one port bound to one signal both plainly and starred gives two
-    connectors of one name (and is excluded for loaded trees by `PortsDistinct` / `SysNamesOk`); a port bound twice in
-    the same orientation (an input that is also an output, `examples/David_CRN/Oscillator.sys`) no longer does. -/
+/-- what the suffix is: `-_rc` exactly for a complementary binding of a port that some entry of the same signal binds
+    plainly, nothing otherwise -/
+theorem rcSuffix_spec (es : List SigEntry) (e : SigEntry) :
+    rcSuffix es e = if e.wc = true ∧ ∃ e' ∈ es, e'.connName = e.connName ∧ e'.wc = false then "-_rc" else "" := by
+  split
+  · rename_i h; exact rcSuffix_eq_rc h
+  · rename_i h; exact rcSuffix_eq_empty h
+
+/-- For every signal block, the structure names of `signalDoc pfx sg len es` (`S-_Self`, the connectors
+    `S-<instance>-<port>` and, for a port bound both ways, `S-<instance>-<port>-_rc`) are pairwise distinct **iff** no
+    port that the signal binds in both orientations (`e` starred, `e₀` plain, same connector name) has a sibling entry
+    `e'` whose own connector name is that name followed by `-_rc`.  The side condition is exact; it can fail because
+    sequence names of components may contain `-` and `_` (`exRcClash` below).  One port bound to one signal both
+    plainly and starred no longer gives two connectors of one name (repair F17b), nor does a port bound twice in the
+    same orientation (an input that is also an output, `examples/David_CRN/Oscillator.sys`; repair F17). -/
 theorem connectors_written_once (pfx sg : String) (len : Nat) (es : List SigEntry) :
     ((structLines (signalDoc pfx sg len es)).map (·.1)).Nodup ↔
-      ∀ e ∈ es, ∀ e' ∈ es, e.connName = e'.connName → e.wc = e'.wc :=
+      ∀ e ∈ es, ∀ e₀ ∈ es, ∀ e' ∈ es, e.wc = true → e₀.wc = false → e₀.connName = e.connName →
+        e'.connName ≠ e.connName ++ "-_rc" :=
   LoadInv.signal_structNames_nodup_iff pfx sg len es
+
+/-- if no connector name of the signal's entries ends in `-_rc`, the structure names of the signal block are pairwise
+    distinct, whatever the bindings -/
+theorem connectors_written_once_of_no_rc (pfx sg : String) (len : Nat) (es : List SigEntry)
+    (h : ∀ e ∈ es, ∀ s : String, e.connName ≠ s ++ "-_rc") :
+    ((structLines (signalDoc pfx sg len es)).map (·.1)).Nodup :=
+  (connectors_written_once pfx sg len es).2 (fun e _ _ _ e' he' _ _ _ => h e' he' e.connName)
+
+/-- on a table in which the entries of one connector name have one orientation — in particular pairwise distinct
+    connector names, which is what `Sys.loadFile` produces from sources satisfying `DesNamesOk`
+    (`LoadInv.rcSuffix_loaded`) — no suffix is written and the structure names are pairwise distinct -/
+theorem connectors_plain_of_consistent (pfx sg : String) (len : Nat) (es : List SigEntry)
+    (h : ∀ e ∈ es, ∀ e' ∈ es, e.connName = e'.connName → e.wc = e'.wc) :
+    (∀ e ∈ es, rcSuffix es e = "") ∧ ((structLines (signalDoc pfx sg len es)).map (·.1)).Nodup :=
+  ⟨fun _ he => rcSuffix_of_consistent h he,
+   (connectors_written_once pfx sg len es).2 (fun e he e₀ he₀ _ _ hw hw₀ hc => by
+     have := h e₀ he₀ e he hc
+     rw [hw, hw₀] at this
+     cases this)⟩
 
 /-! ### 4. the equivalence -/
 
@@ -502,10 +543,45 @@ example : ((seqLines (docOf exClash)).map (·.1)).Nodup ∧ ((assignLines (docOf
 example : assignLines (docOf exClash) =
     [("q-_Self", [⟨"q-_WC", false⟩, ⟨"q", false⟩]), ("q-a-x", [⟨"q-_WC", false⟩, ⟨"a-y", false⟩])] ∧
     (designOfBlocks exClash).equals = [[fwd "q" 2, fwd "a-y" 2, fwd "a-x" 2]] := by decide
-/-- one port bound plainly and starred: both connectors are written, under one name -/
-example : ¬ ((structLines (signalDoc "" "q" 2
+/-! ### non-vacuity of the `-_rc` suffix (repair F17b): one port bound to a signal plainly and starred -/
+
+/-- `exSys` with `a = T(q*) -> q`: port `x` of instance `a` is bound to `q` plainly and starred -/
+def exBoth : Inst :=
+  .sys (.mk "." "top" "" [("T", "T")]
+    [("q", [⟨.seq ⟨"x", false, 2, false⟩ [⟨"x", false, 2⟩], "a", true⟩,
+            ⟨.seq ⟨"x", false, 2, false⟩ [⟨"x", false, 2⟩], "a", false⟩])]
+    [("q", 2)]
+    [("a", .comp (exComp "a-" ⟨['1'], []⟩))] [] [⟨"q", false⟩])
+
+/-- one port bound plainly and starred: both connectors are written, they are called `q-a-x` and `q-a-x-_rc`, and
+    the structure names are pairwise distinct -/
+example : (structLines (signalDoc "" "q" 2
+    [⟨.seq ⟨"x", false, 2, false⟩ [⟨"x", false, 2⟩], "a", false⟩,
+     ⟨.seq ⟨"x", false, 2, false⟩ [⟨"x", false, 2⟩], "a", true⟩])).map (·.1) = ["q-_Self", "q-a-x", "q-a-x-_rc"] ∧
+  ((structLines (signalDoc "" "q" 2
     [⟨.seq ⟨"x", false, 2, false⟩ [⟨"x", false, 2⟩], "a", false⟩,
      ⟨.seq ⟨"x", false, 2, false⟩ [⟨"x", false, 2⟩], "a", true⟩])).map (·.1)).Nodup := by decide
+/-- the document of `exBoth` renders to the expected lines (the starred binding comes first in the table and is the
+    one renamed), which are the lines `Sys.emitDesInst` prints -/
+example : (desDoc exBoth).map Line.render = [
+    "structure a-d = ((+))", "sequence a-x = NN", "sequence a-y = SN", "a-d : a-x a-y*", "a-d < 1.000000",
+    "sequence q = NN", "sequence q-_WC = NN",
+    "structure q-_Self = ((+))", "q-_Self : q-_WC q",
+    "structure q-a-x-_rc = ((+))", "q-a-x-_rc : q a-x",
+    "structure q-a-x = ((+))", "q-a-x : q-_WC a-x"] := by decide
+example : (desDoc exBoth).map Line.render = Sys.emitDesInst exBoth := by decide
+/-- the hypotheses of the `BlocksOk`-relative theorems hold for it and the document is well formed -/
+example : BlocksOk (blocksInst exBoth) := by decide
+example : wellFormed (desDoc exBoth) = true := by decide
+example : (designOf exBoth).equals = [[fwd "q" 2, rc (fwd "a-x" 2), fwd "a-x" 2]] := by decide
+/-- the side condition of `connectors_written_once` is needed: a third port whose sequence is called `x-_rc` (a
+    legal sequence name) takes the name of the renamed connector -/
+def exRcClash : List SigEntry :=
+  [⟨.seq ⟨"x", false, 2, false⟩ [⟨"x", false, 2⟩], "a", false⟩,
+   ⟨.seq ⟨"x", false, 2, false⟩ [⟨"x", false, 2⟩], "a", true⟩,
+   ⟨.seq ⟨"x-_rc", false, 2, false⟩ [⟨"x-_rc", false, 2⟩], "a", false⟩]
+example : (structLines (signalDoc "" "q" 2 exRcClash)).map (·.1) = ["q-_Self", "q-a-x", "q-a-x-_rc", "q-a-x-_rc"] ∧
+    ¬ ((structLines (signalDoc "" "q" 2 exRcClash)).map (·.1)).Nodup := by decide
 
 /-- the equivalence applies to it, with the generated table -/
 example (a : Var → Base) :
